@@ -195,3 +195,19 @@ func (m *Metrics) GaugeValue(fullName string, values ...string) int64 {
 
 // NumCounters reports how many distinct counters exist.
 func (m *Metrics) NumCounters() int { return len(m.reg.counters) }
+
+// StubMD5 is an injective stand-in for util.MD5ToHexdigest on contents of up to
+// 8 bytes (the hash is assumed collision-free): 32 characters whose tail is the
+// hex rendering of the content, left-padded with 'g'.
+func StubMD5(content string) string {
+	const hexd = "0123456789abcdef"
+	out := []byte("gggggggggggggggggggggggggggggggg")
+	if len(content) > 8 {
+		panic("fakes.StubMD5 supports up to 8 bytes")
+	}
+	p := len(out) - 2*len(content)
+	for i := 0; i < len(content); i++ {
+		out[p+2*i], out[p+2*i+1] = hexd[content[i]>>4], hexd[content[i]&15]
+	}
+	return string(out)
+}
